@@ -118,12 +118,12 @@ func runC02(c C02Case, cs *kit.CaseStats) error {
 	done := 0
 	req := tr.Network.HardforkV2.RequireHeight
 	allow := tr.Network.HardforkV2.AllowHeight
-	known := func(id types.BlockID) bool { _, ok := node.CM.State(id); return ok }
+	_ = allow
 	maxH := treeMaxHeight(tr)
 	checkedTips := map[types.BlockID]bool{}
 
 	for si, st := range c.Steps {
-		_, blocks, states, validated := tr.ResolveBatch(st, known)
+		_, blocks, states, validated := tr.ResolveBatch(st, node.ValidatedParent)
 		if len(blocks) == 0 {
 			continue
 		}
